@@ -1,9 +1,11 @@
 package sync
 
 import (
+	"context"
 	"sync"
 
 	"github.com/celestiaorg/go-header"
+	"github.com/celestiaorg/go-header/internal/verifhook"
 )
 
 // ranges keeps non-overlapping and non-adjacent header ranges which are used to cache headers (in
@@ -40,6 +42,7 @@ func (rs *ranges[H]) Add(h H) {
 	defer rs.lk.Unlock()
 
 	head := rs.head()
+	verifhook.Yield(context.Background(), "ranges.add.read")
 
 	// short-circuit if header is from the past
 	if !head.IsZero() && head.Height() >= h.Height() {
